@@ -6,6 +6,9 @@ rows = []
 for f in sorted(glob.glob(os.path.join(V, "seeded", "*", "meta.json"))):
     m = json.load(open(f))
     sid = m["id"]
+    if m.get("obsolete"):
+        rows.append("| %s | (obsolete) %s | - | not counted |" % (sid, m["obsolete"][:160].replace("|", "/")))
+        continue
     conf = {True: "yes", False: "NO", None: "?"}[m.get("confirmed")]
     det = []
     for p, c in (m.get("checks") or {}).items():
